@@ -303,6 +303,9 @@ func checkProperty(id string, thorough, verbose bool, replayFile string, timeout
 		for _, a := range c.Assumes {
 			assumptions = append(assumptions, fmt.Sprintf("assumed at entry of %s: %s", c.Short, a.Src))
 		}
+		for _, a := range c.EnsuresA {
+			assumptions = append(assumptions, fmt.Sprintf("assumed (not proved) of %s: %s", c.Short, a.Src))
+		}
 	}
 	assumptions = append(assumptions, propertyAssumptions[id]...)
 	ev := evidence{PropertyID: id, Tier: tier, Seed: seed, Level: "proof", Assumptions: assumptions, Violations: violations}
